@@ -38,14 +38,21 @@ thread_local! {
 
 pub fn fill(entry: Entry, spec: &PathSpec, opts: &FillOptions) -> FillOut {
     let mut buffers: VertexBuffers<Point, u32> = VertexBuffers::new();
+    let n = FILL_CALLS.with(|c| {
+        c.set(c.get() + 1);
+        c.get()
+    });
+    // half of the calls append to buffers that already hold another geometry (5 vertices far away, one triangle): the
+    // result is then read the way a user reads it - the indices after the first geometry's, into the vertex buffer
+    let prefilled = n % 4 >= 2;
+    if prefilled {
+        buffers.vertices = vec![point(-1.0e6, -1.0e6); 5];
+        buffers.indices = vec![0, 1, 2];
+    }
     let (ok, calls, positions) = {
         let mut rec = Recorder::new(&mut buffers, None);
         // every other call goes through one long-lived tessellator (the property does not depend on the tessellator's
         // history: C08); it is replaced after a call that failed or panicked
-        let n = FILL_CALLS.with(|c| {
-            c.set(c.get() + 1);
-            c.get()
-        });
         let ok = if n % 2 == 0 {
             let mut t = REUSED.with(|t| t.borrow_mut().take()).unwrap_or_else(FillTessellator::new);
             let ok = catch(AssertUnwindSafe(|| run_fill(entry, &mut t, spec, opts, &mut rec))).map(|r| r.is_ok());
@@ -61,6 +68,10 @@ pub fn fill(entry: Entry, spec: &PathSpec, opts: &FillOptions) -> FillOut {
     let mut pos = vec![point(f32::NAN, f32::NAN); buffers.vertices.len().max(positions.iter().map(|p| p.0 as usize + 1).max().unwrap_or(0))];
     for (id, p) in positions {
         pos[id as usize] = p;
+    }
+    if prefilled {
+        let tris = buffers.indices[3.min(buffers.indices.len())..].chunks(3).filter(|c| c.len() == 3).map(|c| (c[0], c[1], c[2])).collect();
+        return FillOut { ok, positions: buffers.vertices.clone(), tris };
     }
     let tris = calls.iter().filter_map(|c| if let GCall::Tri(a, b, c) = c { Some((*a, *b, *c)) } else { None }).collect();
     FillOut { ok, positions: pos, tris }
